@@ -29,3 +29,9 @@ def run(rep, tier):
                    lambda I, t, sy, mode: I.call_value(I.getattr(t, "eraseRegion"), [sy["a"], sy["b"], mode[0], mode[1]], {}),
                    lambda O, ents, m, M, sy, mode: specs.erase_point(O, ents, m, M, sy["a"], sy["b"], mode[1]),
                    "%d generic points x region (a,b) inside span" % k)
+
+    # the textgrid-level operation (shared with C12): same names, same order, each tier equal to the tier operation
+    from .c12 import lifting
+    rep.rule("L-lifting-eraseRegion", "Textgrid.eraseRegion on a generic textgrid: per-tier result equals the tier-level eraseRegion(truncate), shared span, validate() True")
+    for shape in ([("interval", "I", 1), ("point", "E", 0)], [("interval", "E", 0), ("point", "P", 1)]):
+        lifting(rep, shape, only="eraseRegion")
